@@ -150,6 +150,11 @@ def shapes(tier):
     out.append({'initial': INITIAL + [three], 'deviations': d1, 'early': False,
                 'script': [('query', 0, 'id_from_pos_merkle', (3, 2)), ('query', 0, 'id_from_pos', (3, 2)),
                            ('reorg', 1, [dict(three, cb='B'), cbA])]})
+    # a cached history whose newest transaction exists only on the orphaned branch (not re-mined, not back in the
+    # mempool): the reorg must evict it
+    out.append({'initial': INITIAL, 'deviations': d1,
+                'script': [('block', cbB), ('query', 0, 'history', 'B'), ('query', 0, 'listunspent', 'B'),
+                           ('reorg', 1, [cbC, cbC])]})
     # a by-height request for a replaced height placed between the replacement block's advance and its flush (the
     # in-memory counts already cover it, the file still holds the orphaned block's hashes)
     out.append({'initial': INITIAL + [payA], 'deviations': d1, 'early': False,
@@ -183,7 +188,7 @@ KERNELS = [
                     '_handle_chain_reorgs', 'tx_hashes_at_blockheight', 'ElectrumX.confirmed_and_unconfirmed_history',
                     'get_balance', 'hashX_listunspent', 'unconfirmed_history', 'transaction_id_from_pos',
                     'electrumx/server/db.py:DB.limited_history', 'all_utxos', 'tx_hashes_at_blockheight'],
-           bounds='10 (quick) / 22 (thorough) scripted stories with queries placed before, inside (right after '
+           bounds='11 (quick) / 24 (thorough) scripted stories with queries placed before, inside (right after '
                   'backup_block returns) and after reorganisation windows or racing a block; interleaving as in C07 '
                   '(1 / 2 deviations)',
            outside='as C07; cache eviction by capacity (1000 entries)',
